@@ -360,25 +360,33 @@ def cloneAttr (rec : Nat → M Nat) (key : String) (a : Nat) : M (String × Nat)
     pure (key, a')
   | _ => pure (as.name, a)
 
-/-- "Copy output properties" (`_cloner.py` 211-222) -/
-def copyOutput (o o' : Nat) : M Unit := do
-  vmSet o o'
+/-- the clone of one node output: `Value(self, index=i)` in `Node.__init__` followed by "Copy
+    output properties" (`_cloner.py` 211-222).  The model allocates the value with its final
+    content (Python creates it blank and assigns the fields next; no error point lies between, and
+    the only reader of the intermediate state is the cloner itself); the producer link is set by
+    `setProducer` once the node cell exists. -/
+def cloneOutput (i : Nat) (o : Nat) : M Nat := do
   let os ← readVal o
   let sh ← copyShape os.shape
   let ty ← copyType os.type
-  let pd ← readDict os.props
-  let md ← readDict os.mstore
-  let ns ← readVal o'
-  setCell o' (.val { ns with name := os.name, shape := sh, type := ty, const := os.const,
-                             doc := os.doc })
-  setCell ns.props (.dict { data := pd.data, invalid := [] })
-  setCell ns.mstore (.dict { data := md.data, invalid := md.invalid })
+  let props ← copyProps os.props
+  let mstore ← copyMeta os.mstore
+  let o' ← alloc (.val { name := os.name, doc := os.doc, index := some i, type := ty, shape := sh,
+                         const := os.const, props := props, mstore := mstore })
+  vmSet o o'
+  pure o'
 
-def copyOutputs : List Nat → List Nat → M Unit
-  | o :: os, o' :: os' => do
-    copyOutput o o'
-    copyOutputs os os'
-  | _, _ => pure ()
+def cloneOutputs : Nat → List Nat → M (List Nat)
+  | _, [] => pure []
+  | i, o :: os => do
+    let o' ← cloneOutput i o
+    let rest ← cloneOutputs (i + 1) os
+    pure (o' :: rest)
+
+/-- `Value._producer = node` -/
+def setProducer (n : Nat) (v : Nat) : M Unit := do
+  let vs ← readVal v
+  setCell v (.val { vs with producer := some n })
 
 /-- `Cloner._remap_device_configurations` (`_cloner.py` 233-262) with no `None` entries in the
     value map -/
@@ -396,26 +404,23 @@ def remapDev (vm : List (Nat × Nat)) (d : List DevCfg) : List DevCfg :=
 def getVm : M (List (Nat × Nat)) := fun s => (.ok s.vm, s)
 
 /-- `Cloner.clone_node` (`_cloner.py` 166-231) followed by nothing (`post_process` is the identity
-    for the clone entry points) -/
+    for the clone entry points).  Cells are allocated in their final form: outputs first (see
+    `cloneOutput`), then the node with its outputs and its remapped device configurations
+    (`_remap_device_configurations` runs after the outputs are in the value map, as here). -/
 def cloneNode (allow : Bool) (rec : Nat → M Nat) (n : Nat) : M Nat := do
   let ns ← readNode n
   let newInputs ← mapInputs allow ns.inputs
   let newAttrs ← mapM' (fun ka => cloneAttr rec ka.1 ka.2) ns.attrs
-  -- `_core.Node(...)`
   let props ← copyProps ns.props
   let mstore ← copyMeta ns.mstore
+  let outs ← cloneOutputs 0 ns.outputs
+  let vm ← getVm
   let n' ← alloc (.node { name := ns.name, doc := ns.doc, domain := ns.domain, opType := ns.opType,
                           overload := ns.overload, version := ns.version, inputs := newInputs,
-                          outputs := [], attrs := dictOf newAttrs, dev := ns.dev,
+                          outputs := outs, attrs := dictOf newAttrs, dev := remapDev vm ns.dev,
                           props := props, mstore := mstore })
-  let outs ← mkOutputs n' 0 ns.outputs.length
-  let nn ← readNode n'
-  setCell n' (.node { nn with outputs := outs })
+  forM' (setProducer n') outs
   addUses n' 0 newInputs
-  copyOutputs ns.outputs outs
-  let vm ← getVm
-  let nn ← readNode n'
-  setCell n' (.node { nn with dev := remapDev vm nn.dev })
   pure n'
 
 /-- `Cloner._get_value` for the graph outputs: `KeyError` (wrapped in `RuntimeError`) -/
@@ -475,37 +480,31 @@ def setNodeGraph (g : Nat) (n : Nat) : M Unit := do
   setCell n (.node { ns with graph := some g })
 
 /-- `Graph(inputs, outputs, nodes=, initializers=, doc_string=, opset_imports=, name=)` followed by
-    the metadata copies at the end of `clone_graph` -/
+    the metadata copies at the end of `clone_graph`.  The graph cell is allocated with its final
+    content; then the ownership checks and flags of `GraphInputs`, `GraphOutputs`,
+    `GraphInitializers`, the name authority and `extend(nodes)` run in Python's order (a raising
+    check leaves garbage that nothing refers to, in Python and here). -/
 def mkGraph (src : GraphS) (inputs outputs nodes inits : List Nat) : M Nat := do
-  let sp ← readDict src.props
-  let sm ← readDict src.mstore
-  let props ← alloc (.dict { data := sp.data, invalid := [] })
-  let mstore ← alloc (.dict { data := sm.data, invalid := sm.invalid })
-  let g ← alloc (.graph { name := src.name, doc := src.doc, opsets := src.opsets,
+  let entries ← initEntries [] inits
+  let props ← copyProps src.props
+  let mstore ← copyMeta src.mstore
+  let g ← alloc (.graph { name := src.name, doc := src.doc, inputs := inputs, outputs := outputs,
+                          inits := entries, nodes := nodes, opsets := src.opsets,
                           props := props, mstore := mstore })
   -- GraphInputs
   forM' (checkInput g) inputs
   forM' (setValueOwner g (fun v => { v with isIn := true })) inputs
-  let gs ← readGraph g
-  setCell g (.graph { gs with inputs := inputs })
   -- GraphOutputs
   forM' (checkOwned g) outputs
   forM' (setValueOwner g (fun v => { v with isOut := true })) outputs
-  let gs ← readGraph g
-  setCell g (.graph { gs with outputs := outputs })
   -- GraphInitializers
-  let entries ← initEntries [] inits
   forM' (checkOwned g) (entries.map (·.2))
   forM' (setValueOwner g (fun v => { v with isInit := true })) (entries.map (·.2))
   forM' checkInitEntry entries
-  let gs ← readGraph g
-  setCell g (.graph { gs with inits := entries })
   -- name authority over inputs and initializers, then `extend(nodes)`
   forM' checkNamed inputs
   forM' (checkNodeFree g) nodes
   forM' (setNodeGraph g) nodes
-  let gs ← readGraph g
-  setCell g (.graph { gs with nodes := nodes })
   pure g
 
 /-- `Cloner.clone_graph` (`_cloner.py` 264-295); `rec` is the call for nested graphs -/
@@ -890,5 +889,162 @@ def followed : Cell → List Nat
 /-- no dangling pointers: what holds of every heap abstracted from live Python objects -/
 def wellFormed (w : World) : Bool :=
   w.all fun c => (followed c).all fun p => p < w.length
+
+
+/-! ### what serialization observes (used by C13_faithful_serialize; `clone.ser` in the driver) -/
+
+/-- a cell without the back links (users, owning graph, ownership flags, producer) -/
+def Cell.core : Cell → Cell
+  | .val v => .val { v with uses := [], graph := none, isIn := false, isOut := false, isInit := false,
+                            producer := none }
+  | .node n => .node { n with graph := none }
+  | c => c
+
+def coreAt (w : World) (i : Nat) : Option Cell := (w[i]?).map Cell.core
+
+
+/-- what can be observed of a value besides its connections: name, doc string, constant tensor,
+    the content of its type and shape objects, of `metadata_props` and of `meta` -/
+structure VInfo where
+  name : Option String
+  doc : Option String
+  const : Option Nat
+  type : Option TypeS
+  shape : Option (List Dim × List (Option String))
+  props : List (String × String)
+  mdata : List (String × String)
+  minvalid : List String
+
+def cType (w : World) (i : Nat) : Option TypeS :=
+  match coreAt w i with | some (.type t) => some t | _ => none
+def cShape (w : World) (i : Nat) : Option ShapeS :=
+  match coreAt w i with | some (.shape t) => some t | _ => none
+def cDict (w : World) (i : Nat) : Option DictS :=
+  match coreAt w i with | some (.dict t) => some t | _ => none
+def cVal (w : World) (i : Nat) : Option ValueS :=
+  match coreAt w i with | some (.val t) => some t | _ => none
+def cNode (w : World) (i : Nat) : Option NodeS :=
+  match coreAt w i with | some (.node t) => some t | _ => none
+def cGraph (w : World) (i : Nat) : Option GraphS :=
+  match coreAt w i with | some (.graph t) => some t | _ => none
+def cAttr (w : World) (i : Nat) : Option AttrS :=
+  match coreAt w i with | some (.attr t) => some t | _ => none
+def cFunc (w : World) (i : Nat) : Option FuncS :=
+  match coreAt w i with | some (.func t) => some t | _ => none
+def cModel (w : World) (i : Nat) : Option ModelS :=
+  match coreAt w i with | some (.model t) => some t | _ => none
+
+def optType (w : World) : Option Nat → Option (Option TypeS)
+  | none => some none
+  | some t => (cType w t).map some
+
+def optShape (w : World) : Option Nat → Option (Option (List Dim × List (Option String)))
+  | none => some none
+  | some t => (cShape w t).map fun s => some (s.dims, s.denots)
+
+def vinfo (w : World) (v : Nat) : Option VInfo :=
+  match cVal w v with
+  | none => none
+  | some vs =>
+    match optType w vs.type, optShape w vs.shape, cDict w vs.props, cDict w vs.mstore with
+    | some ty, some sh, some p, some m =>
+      some { name := vs.name, doc := vs.doc, const := vs.const, type := ty, shape := sh,
+             props := p.data, mdata := m.data, minvalid := m.invalid }
+    | _, _, _, _ => none
+
+
+mutual
+/-- `GraphProto` as far as the IR determines it (value infos carry the whole observation) -/
+inductive SGraph where
+  | mk (name doc : Option String) (opsets : List (String × Int)) (inputs inits : List VInfo)
+      (nodes : List SNode) (outputs : List VInfo) (props mdata : List (String × String))
+      (minvalid : List String)
+/-- `NodeProto`: inputs by name (`none` = omitted input) -/
+inductive SNode where
+  | mk (name doc : Option String) (domain opType overload : String) (version : Option Int)
+      (inputs : List (Option (Option String))) (outputs : List VInfo) (attrs : List SAttr)
+      (props mdata : List (String × String)) (minvalid : List String)
+      (dev : List (Nat × List (Nat × Option (Option String))))
+/-- `AttributeProto` -/
+inductive SAttr where
+  | plain (name : String) (doc : Option String) (v : AttrV)
+  | graph (name : String) (doc : Option String) (g : SGraph)
+  | graphs (name : String) (doc : Option String) (gs : List SGraph)
+end
+
+def optMapM {α β : Type} (f : α → Option β) : List α → Option (List β)
+  | [] => some []
+  | a :: as =>
+    match f a, optMapM f as with
+    | some b, some bs => some (b :: bs)
+    | _, _ => none
+
+def distinct : List String → Bool
+  | [] => true
+  | a :: as => !as.contains a && distinct as
+
+/-- name of a referenced value (`""`/absent for `None`) -/
+def serRef (w : World) : Option Nat → Option (Option (Option String))
+  | none => some none
+  | some v => (cVal w v).map fun x => some x.name
+
+def serDev (w : World) (d : List DevCfg) : Option (List (Nat × List (Nat × Option (Option String)))) :=
+  optMapM (fun c => (optMapM (fun sp => (serRef w sp.value).map fun r => (sp.payload, r)) c.specs).map
+    fun specs => (c.cfg, specs)) d
+
+/-- the attribute container is consistent: every attribute is filed under its own name, once -/
+def attrsOk (w : World) (attrs : List (String × Nat)) : Bool :=
+  distinct (attrs.map (·.1)) &&
+  attrs.all fun ka => match cAttr w ka.2 with
+    | some as => as.name == ka.1
+    | none => false
+
+def serAttr (rec : Nat → Option SGraph) (w : World) (a : Nat) : Option SAttr :=
+  match cAttr w a with
+  | none => none
+  | some as =>
+    match as.v with
+    | .graph g => (rec g).map fun x => .graph as.name as.doc x
+    | .graphs gs => (optMapM rec gs).map fun xs => .graphs as.name as.doc xs
+    | v => some (.plain as.name as.doc v)
+
+def serNode (rec : Nat → Option SGraph) (w : World) (n : Nat) : Option SNode :=
+  match cNode w n with
+  | none => none
+  | some ns =>
+    if attrsOk w ns.attrs then
+      match optMapM (serRef w) ns.inputs, optMapM (vinfo w) ns.outputs,
+            optMapM (fun ka => serAttr rec w ka.2) ns.attrs, cDict w ns.props, cDict w ns.mstore,
+            serDev w ns.dev with
+      | some ins, some outs, some attrs, some p, some m, some dev =>
+        some (.mk ns.name ns.doc ns.domain ns.opType ns.overload ns.version ins outs attrs p.data
+          m.data m.invalid dev)
+      | _, _, _, _, _, _ => none
+    else none
+
+/-- names of the initializers: all present and pairwise different -/
+def initsOk (w : World) (vs : List Nat) : Bool :=
+  match optMapM (fun v => (cVal w v).bind (·.name)) vs with
+  | some names => distinct names
+  | none => false
+
+def serGraphStep (rec : Nat → Option SGraph) (w : World) (g : Nat) : Option SGraph :=
+  match cGraph w g with
+  | none => none
+  | some gs =>
+    if initsOk w (gs.inits.map (·.2)) then
+      match optMapM (vinfo w) gs.inputs, optMapM (vinfo w) (gs.inits.map (·.2)),
+            optMapM (serNode rec w) gs.nodes, optMapM (vinfo w) gs.outputs,
+            cDict w gs.props, cDict w gs.mstore with
+      | some ins, some inits, some nodes, some outs, some p, some m =>
+        some (.mk gs.name gs.doc gs.opsets ins inits nodes outs p.data m.data m.invalid)
+      | _, _, _, _, _, _ => none
+    else none
+
+/-- what the serializer writes for graph `g` (nesting depth bounded by the fuel) -/
+def serGraph : Nat → World → Nat → Option SGraph
+  | 0, _, _ => none
+  | k + 1, w, g => serGraphStep (serGraph k w) w g
+
 
 end IrVerif.Clone
